@@ -188,7 +188,7 @@ def wfReport (pr : Prog) (len : Nat) : String :=
   s!"facts={b facts},br={b (!hasBackref pr.op || pr.hasBackrefs)},prewf={b (pr.pres.all (fun q => wfOp q.op))}," ++
   -- the fragment of the full-strength theorems (Props/Clean, SearchComplete), their extra hypothesis, and the class
   -- hypothesis of the case-invariance theorems (Props/C11b; alphabet = everything but U+0130)
-  s!"clean={b (cleanOp pr.op)},nea={b (C08.noEmptyAtoms pr.op)},cicl={b (!pr.caseBlind || C11b.allClsB (C11b.clsClosedOnB (fun c => c != 304)) pr.op)}"
+  s!"clean={b (cleanOp pr.op && !pr.hasBackrefs)},nea={b (C08.noEmptyAtoms pr.op)},cicl={b (!pr.caseBlind || C11b.allClsB (C11b.clsClosedOnB (fun c => c != 304)) pr.op)}"
 
 def runApi (pr : Prog) (api : String) (input repl : List Nat) (limit : Nat) : String :=
   match api with
